@@ -532,8 +532,13 @@ class Store:
                 declared for this variable (whatever the order in which
                 the declarations arrive).
         """
-        if self.units is not None and \
-                self.units.dimensionality != implied.dimensionality:
+        if self.units is None:
+            return
+        declared = self.units
+        if not isinstance(declared, Unit):
+            # (units may be declared by name)
+            declared = implied._REGISTRY.parse_units(str(declared))
+        if declared.dimensionality != implied.dimensionality:
             raise ValueError(
                 f"Incompatible schema assignment at {self.path_for()}. "
                 f"Trying to assign the value {implied} to key units, "
@@ -1092,7 +1097,10 @@ class Store:
         """
         if isinstance(value, Quantity):
             return value.to(self.units)
-        return value * self.units
+        if isinstance(self.units, Unit):
+            return value * self.units
+        # (units declared by name)
+        return Quantity(value, self.units)
 
     def set_emit_values(self, paths=None, emit=False):
         """
